@@ -11,6 +11,7 @@ import itertools
 import json
 import os
 import sys
+import traceback
 from fractions import Fraction as F
 
 sys.path.insert(0, os.path.dirname(os.path.abspath(__file__)))
@@ -153,6 +154,10 @@ def oracle_children(h, base, dec, kids):
     return bad
 
 
+def valid_in(h, base):
+    return base in CFG and all(ch in CFG[base]['charset'] for ch in h)
+
+
 def main():
     ck = Check('C11')
     ck.build_theories(['theories/Props/C11.vo', 'theories/Corr/GeohashK.vo'])
@@ -173,18 +178,48 @@ def main():
     def flag(i, clause, detail):
         flagged.setdefault(i, []).append([clause, detail])
 
+    def total(kind, default):
+        """make a case builder total: whatever the implementation returned (wrong type, Ok where an
+        error was expected, an unexpected exception inside a driver), the outcome is a case that can
+        only mismatch (KMalformed) carrying the arguments, never a Python exception of the harness"""
+        def deco(fn):
+            def wrapped(*a, **kw):
+                try:
+                    return fn(*a, **kw)
+                except Exception as ex:   # noqa
+                    i = add('KMalformed', {'k': kind, 'args': [repr(x)[:300] for x in a], 'kwargs': {k: repr(v)[:200] for k, v in kw.items()},
+                                           'harness_exception': traceback.format_exc()[-1500:]})
+                    flag(i, 'malformed-answer', f'{kind}{tuple(repr(x)[:80] for x in a)}: the implementation\'s answer could not be '
+                                                f'encoded/evaluated ({ex!r})')
+                    return default(i)
+            return wrapped
+        return deco
+
     nontrivial = set()
     route = itertools.count()
 
-    def add_decode(h, base):
+    @total('decode', lambda i: (i, ('Err', 'Malformed')))
+    def add_decode(h, base, expect_valid=None, why='decode'):
         r = impl_decode(h, base)
+        if r[0] == 'Ok':
+            vals = tuple(r[1])
+            if len(vals) != 4 or not all(isinstance(v, (int, float)) and not isinstance(v, bool) for v in vals):
+                raise TypeError(f'decode returned {r[1]!r}')
+            r = ('Ok', tuple(float(v) for v in vals))
         i = add(f'KDecode {zlit(base)} {slit(h)} {reslit(r, q4)}',
                 {'k': 'decode', 'base': base, 'hash': h, 'out': [r[0], [jf(v) for v in r[1]] if r[0] == 'Ok' else r[1]]})
+        if expect_valid is True and r[0] != 'Ok':
+            flag(i, 'decode-valid', f'{h!r} is over the base-{base} alphabet but decode raised {r[1]} ({why})')
+        if expect_valid is False and r != ('Err', 'ValueError'):
+            flag(i, 'decode-rejects', f'{h!r} has a character outside the base-{base} alphabet but decode gave {r} ({why})')
         return i, r
 
+    @total('encode', lambda i: (i, ('Err', 'Malformed')))
     def add_encode(c, L, base, expect=None, why=''):
         rt = next(route) % 4
         r = impl_encode(c, L, base, rt)
+        if r[0] == 'Ok' and not isinstance(r[1], str):
+            raise TypeError(f'encode returned {r[1]!r}')
         i = add(f'KEncode {zlit(base)} {fq(c.longitude)} {fq(c.latitude)} {zlit(L)} {reslit(r, slit)}',
                 {'k': 'encode', 'base': base, 'lon': jf(c.longitude), 'lat': jf(c.latitude), 'len': L, 'route': rt,
                  'out': list(r)})
@@ -192,22 +227,30 @@ def main():
             flag(i, why, f'got {r}, expected {expect!r}')
         return i, r
 
+    def box_out(r):
+        """impl_box answer -> ('Ok', ((lon, lat), (lon, lat))) | ('Err', kind); raises on anything else"""
+        if r[0] != 'Ok':
+            return r
+        corners = r[1][1]
+        (a, b), (c, d) = corners
+        if not all(isinstance(v, (int, float)) and not isinstance(v, bool) for v in (a, b, c, d)):
+            raise TypeError(f'box corners {corners!r}')
+        return ('Ok', ((float(a), float(b)), (float(c), float(d))))
+
+    @total('box', lambda i: None)
     def add_box(h, base, dec, pts, nroutes=3):
         rt = next(route) % nroutes
         r = impl_box(h, base, rt)
+        out = box_out(r)
         inr = in_range(dec)
         east = cell_of(dec)[1]
         for (px, py) in pts:
-            if r[0] == 'Ok':
-                o_in = r[1][0].contains_coordinate(Coordinate(px, py))
-                out = ('Ok', r[1][1])
-            else:
-                o_in, out = False, r
+            o_in = bool(r[1][0].contains_coordinate(Coordinate(px, py))) if r[0] == 'Ok' else False
             pc = Coordinate(px, py)
             m = {'k': 'box', 'base': base, 'hash': h, 'route': rt, 'point': [jf(px), jf(py)], 'in': o_in,
                  'east': float(east), 'in_range': inr,
                  'out': [out[0], [[jf(v) for v in c] for c in out[1]] if out[0] == 'Ok' else out[1]]}
-            i = add(f'KBox {base} {slit(h)} {reslit(out, boxlit)} {fq(pc.longitude)} {fq(pc.latitude)} {blit(o_in)}', m)
+            i = add(f'KBox {zlit(base)} {slit(h)} {reslit(out, boxlit)} {fq(pc.longitude)} {fq(pc.latitude)} {blit(o_in)}', m)
             if inr and out[0] == 'Ok':
                 w, e, s, n = cell_of(dec)
                 corners_ok = (tuple(F(v) for v in out[1][0]) == (w, n) and tuple(F(v) for v in out[1][1]) == (e, s))
@@ -220,6 +263,49 @@ def main():
             elif inr:
                 flag(i, 'cell-box', f'niemeyer_to_geobox raised {out[1]}')
 
+    @total('box-reject', lambda i: None)
+    def add_box_reject(h, base, why=''):
+        """niemeyer_to_geobox on a string that is not over the alphabet of `base` (or an unknown base)"""
+        out = box_out(impl_box(h, base, 0))
+        j = add(f'KBox {zlit(base)} {slit(h)} {reslit(out, boxlit)} {fq(0)} {fq(0)} false',
+                {'k': 'box-reject', 'base': base, 'hash': h, 'out': list(out) if out[0] == 'Err' else ['Ok', [[jf(v) for v in c] for c in out[1]]]})
+        exp = ('Err', 'ValueError') if base in CFG else ('Err', 'KeyError')
+        if out != exp:
+            flag(j, 'decode-rejects', f'niemeyer_to_geobox({h!r}, {base}) gave {out[0]} {out[1] if out[0] == "Err" else "a box"}, expected {exp[1]} ({why})')
+
+    @total('children', lambda i: None)
+    def add_children(h, base, dec=None):
+        rk = impl_children(h, base)
+        if rk[0] == 'Ok' and not all(isinstance(k, str) for k in rk[1]):
+            raise TypeError(f'sub-hashes {rk[1]!r}')
+        j = add(f'KChildren {zlit(base)} {slit(h)} {reslit(rk, lambda ks: listlit([slit(k) for k in ks]))}',
+                {'k': 'children', 'base': base, 'hash': h, 'out': list(rk)})
+        if dec is None:
+            return
+        if rk[0] != 'Ok':
+            flag(j, 'children', f'raised {rk[1]}')
+        else:
+            for cl, det in oracle_children(h, base, dec, rk[1]):
+                flag(j, cl, det)
+
+    xcount = itertools.count()
+
+    def cross_bases(h, own, first):
+        """the same string under the other bases (varying order), then under its own base again:
+        validity must depend on (string, base) only, and the own-base answer must not change"""
+        k = next(xcount)
+        others = [b for b in (16, 32, 64) if b != own]
+        if k % 2:
+            others.reverse()
+        for ob in others:
+            v = valid_in(h, ob)
+            add_decode(h, ob, expect_valid=v, why=f'after base {own}')
+            if not v:
+                add_box_reject(h, ob, why=f'after base {own} accepted it')
+        i, again = add_decode(h, own, expect_valid=valid_in(h, own), why='again after the other bases')
+        if again != first:
+            flag(i, 'decode-stable', f'decode({h!r}, {own}) changed from {first} to {again} after the string was decoded under other bases')
+
     # ---------------------------------------------------------------- 1. every cell down to DEPTH
     depth = dict(DEPTH)
     kids_depth = dict(DEPTH) if thorough else {16: 3, 32: 2, 64: 1}
@@ -230,10 +316,11 @@ def main():
             for tup in itertools.product(cs, repeat=L):
                 h = ''.join(tup)
                 n_cells += 1
-                i, r = add_decode(h, base)
+                i, r = add_decode(h, base, expect_valid=True)
                 if r[0] != 'Ok':
-                    flag(i, 'decode-valid', f'decode of an alphabet string raised {r[1]}')
                     continue
+                if L <= 2 and (base != 64 or L == 1 or n_cells % 4 == 0 or thorough):
+                    cross_bases(h, base, r)
                 dec = r[1]
                 lon, lat = dec[0], dec[1]
                 inr = in_range(dec)
@@ -242,14 +329,7 @@ def main():
                     nontrivial.add(('cell', base, h))
                     add_encode(Coordinate(lon, lat), L, base, expect=h, why='reencode-centre')
                     if L <= kids_depth[base]:
-                        rk = impl_children(h, base)
-                        j = add(f'KChildren {base} {slit(h)} {reslit(rk, lambda ks: listlit([slit(k) for k in ks]))}',
-                                {'k': 'children', 'base': base, 'hash': h, 'out': list(rk)})
-                        if rk[0] != 'Ok':
-                            flag(j, 'children', f'raised {rk[1]}')
-                        else:
-                            for cl, det in oracle_children(h, base, dec, rk[1]):
-                                flag(j, cl, det)
+                        add_children(h, base, dec)
                     # the box of the cell contains the cell's centre (and, on a rotating basis, a corner)
                     w, e, s, n = (float(v) for v in cell_of(dec))
                     pts = [(lon, lat)]
@@ -264,20 +344,26 @@ def main():
     ck.cov['classes']['cells_in_range'] = n_inrange
 
     # ---------------------------------------------------------------- 2. random coordinates, lengths 1..12
-    n_rand = 30000 if thorough else 5000
+    # each coordinate is encoded under ALL three bases (order shuffled) in the same process, and each
+    # resulting string is decoded under all three bases
+    n_rand = 10000 if thorough else 1700
     specials_x = [-180.0, 180.0, 0.0, 90.0, -90.0, 45.0, 179.99999999999997, -179.99999999999997, 11.25, 135.0]
     specials_y = [-90.0, 90.0, 0.0, 45.0, -45.0, 5.625, 89.99999999999999, -89.99999999999999]
     for _ in range(n_rand):
-        base = rng.choice([16, 32, 64])
+        base0 = rng.choice([16, 32, 64])
         L = rng.randint(1, 12)
         kind = rng.random()
         if kind < 0.45:
             x, y, cls = rng.uniform(-180, 180), rng.uniform(-90, 90), 'uniform'
         elif kind < 0.75:
-            # a point exactly on an edge / corner of a random in-range cell of length <= L
+            # a point exactly on an edge / corner / centre of a random in-range cell of length <= L
             L0 = rng.randint(1, L)
-            h0 = GH._coord_to_niemeyer(Coordinate(rng.uniform(-180, 180), rng.uniform(-90, 90)), L0, base)
-            w, e, s, n = (float(v) for v in cell_of(GH._decode_niemeyer(h0, base)))
+            r0 = guarded(lambda: cell_of(GH._decode_niemeyer(
+                GH._coord_to_niemeyer(Coordinate(rng.uniform(-180, 180), rng.uniform(-90, 90)), L0, base0), base0)))
+            if r0[0] == 'Ok':
+                w, e, s, n = (float(v) for v in r0[1])
+            else:
+                w, e, s, n = -11.25, 0.0, 5.625, 11.25
             x = rng.choice([w, e, (w + e) / 2, rng.uniform(w, e)])
             y = rng.choice([s, n, (s + n) / 2, rng.uniform(s, n)])
             y = max(-90.0, min(90.0, y))
@@ -288,23 +374,27 @@ def main():
             cls = 'range-limit'
         c = Coordinate(x, y)
         ck.count('coord:' + cls)
-        i, r = add_encode(c, L, base)
-        if r[0] != 'Ok':
-            flag(i, 'encode', f'raised {r[1]}')
-            continue
-        h = r[1]
-        nontrivial.add(('coord', base, L, c.longitude, c.latitude))
-        if len(h) != L or any(ch not in CFG[base]['charset'] for ch in h):
-            flag(i, 'encode-length-alphabet', f'{h!r} is not {L} characters of the base-{base} alphabet')
-        j, rd = add_decode(h, base)
-        if rd[0] != 'Ok':
-            flag(j, 'decode-of-encode', f'decode raised {rd[1]}')
-        else:
-            w, e, s, n = cell_of(rd[1])
-            if not (w <= F(c.longitude) <= e and s <= F(c.latitude) <= n):
-                flag(i, 'decode-encode-contains', f'cell {h!r} = {tuple(map(float, (w, e, s, n)))} does not contain the coordinate')
+        order = [16, 32, 64]
+        rng.shuffle(order)
         L2 = rng.randint(0, L)
-        add_encode(c, L2, base, expect=h[:L2], why='encode-prefix')
+        for base in order:
+            i, r = add_encode(c, L, base)
+            if r[0] != 'Ok':
+                flag(i, 'encode', f'raised {r[1]}')
+                continue
+            h = r[1]
+            nontrivial.add(('coord', base, L, c.longitude, c.latitude))
+            if len(h) != L or any(ch not in CFG[base]['charset'] for ch in h):
+                flag(i, 'encode-length-alphabet', f'{h!r} is not {L} characters of the base-{base} alphabet')
+                continue
+            j, rd = add_decode(h, base, expect_valid=True, why='decode of an encoding')
+            if rd[0] == 'Ok':
+                w, e, s, n = cell_of(rd[1])
+                if not (w <= F(c.longitude) <= e and s <= F(c.latitude) <= n):
+                    flag(i, 'decode-encode-contains', f'cell {h!r} = {tuple(map(float, (w, e, s, n)))} does not contain the coordinate')
+                if base == order[0]:
+                    cross_bases(h, base, rd)
+            add_encode(c, L2, base, expect=h[:L2], why='encode-prefix')
 
     # ---------------------------------------------------------------- 3. rejection / error behaviour (fixed)
     outsiders = {16: 'gGzA -=_é', 32: 'ailoAZ-= é', 64: '-+/ .~é中'}
@@ -313,34 +403,39 @@ def main():
         for bad_ch in outsiders[base]:
             for pre, post in (('', ''), (cs[3], ''), ('', cs[5]), (cs[1] + cs[-1], cs[2]), (cs[0] * 5, cs[7] * 3)):
                 h = pre + bad_ch + post
-                i, r = add_decode(h, base)
-                if r != ('Err', 'ValueError'):
-                    flag(i, 'decode-rejects', f'{h!r} contains {bad_ch!r}, outside the base-{base} alphabet, but decode gave {r}')
-                rb = impl_box(h, base, 0)
-                j = add(f'KBox {base} {slit(h)} {reslit(rb, boxlit)} {fq(0)} {fq(0)} false',
-                        {'k': 'box-reject', 'base': base, 'hash': h, 'out': list(rb) if rb[0] == 'Err' else 'Ok'})
-                if rb != ('Err', 'ValueError'):
-                    flag(j, 'decode-rejects', f'niemeyer_to_geobox accepted {h!r}')
-        add_decode('', base)
+                # under every base, each one after the others have seen the same string
+                for rot in range(3):
+                    for b in [(16, 32, 64), (32, 64, 16), (64, 16, 32)][rot]:
+                        add_decode(h, b, expect_valid=valid_in(h, b), why='rejection corpus')
+                        if rot == 0 and not valid_in(h, b):
+                            add_box_reject(h, b, why='rejection corpus')
+        add_decode('', base, expect_valid=True)
         add_encode(Coordinate(1.5, 2.25), 0, base, expect='', why='encode-length')
         add_encode(Coordinate(1.5, 2.25), -3, base, expect='', why='encode-length')
     for ub in (0, 8, 15, 33, 128, -16):
-        add_decode('0', ub)
-        add_encode(Coordinate(1.5, 2.25), 3, ub)
-        rk = impl_children('0', ub)
-        add(f'KChildren {zlit(ub)} {slit("0")} {reslit(rk, lambda ks: listlit([slit(k) for k in ks]))}',
-            {'k': 'children', 'base': ub, 'hash': '0', 'out': list(rk)})
+        i, r = add_decode('0', ub)
+        if r != ('Err', 'KeyError'):
+            flag(i, 'unknown-base', f'decode under the unsupported base {ub} gave {r}')
+        i, r = add_encode(Coordinate(1.5, 2.25), 3, ub)
+        if r != ('Err', 'ValueError'):
+            flag(i, 'unknown-base', f'encode under the unsupported base {ub} gave {r}')
+        add_children('0', ub)
+        add_box_reject('0', ub, why='unsupported base')
+
     # Coordinate normalisation the box goes through (dyadic inputs; exact)
-    for lon, lat in [(180.0, 0.0), (-180.0, 0.0), (180.0, 90.0), (190.0, 10.0), (-190.5, -10.25), (540.0, 0.0), (0.0, 95.0),
-                     (10.0, 180.0), (-10.0, -135.0), (0.0, 270.0), (45.0, -90.0), (179.5, 45.0), (360.0, 0.0), (-45.0, 157.5)]:
+    @total('coord', lambda i: None)
+    def add_coord(lon, lat):
         c = Coordinate(lon, lat)
         add(f'KCoord {fq(lon)} {fq(lat)} {q2((c.longitude, c.latitude))}',
             {'k': 'coord', 'lon': lon, 'lat': lat, 'out': [c.longitude, c.latitude]})
+    for lon, lat in [(180.0, 0.0), (-180.0, 0.0), (180.0, 90.0), (190.0, 10.0), (-190.5, -10.25), (540.0, 0.0), (0.0, 95.0),
+                     (10.0, 180.0), (-10.0, -135.0), (0.0, 270.0), (45.0, -90.0), (179.5, 45.0), (360.0, 0.0), (-45.0, 157.5)]:
+        add_coord(lon, lat)
 
     ck.cov['evaluations'] = len(cases)
     ck.cov['distinct_nontrivial'] = len(nontrivial)
     ck.cov['exhaustive'] = 'every cell of bases 16/32/64 to depth 3/2/2 (decode; re-encoded centre and box for in-range cells; ' \
-                           f'children to depth {kids_depth})'
+                           f'children to depth {kids_depth}); strings of depth <= 2 also decoded under the other two bases'
     for i in (0, 40, 5000, len(cases) - 400, len(cases) - 30):
         ck.sample(cases[max(0, min(i, len(cases) - 1))])
 
@@ -370,17 +465,22 @@ def main():
     for f in ck.findings:
         if f.get('status') == 'open' and f.get('signature') == 'cell_east_edge_180':
             rp = f.get('replay', {'hash': 'z', 'base': 32})
-            b = GH.niemeyer_to_geobox(rp['hash'], rp['base'])
-            lon, lat, ex, ey = GH._decode_niemeyer(rp['hash'], rp['base'])
-            if lon + ex == 180 and b.se_bound.longitude == -180 and not b.contains_coordinate(Coordinate(lon, lat)):
-                ck.known(f)
+            try:
+                b = GH.niemeyer_to_geobox(rp['hash'], rp['base'])
+                lon, lat, ex, ey = GH._decode_niemeyer(rp['hash'], rp['base'])
+                if lon + ex == 180 and b.se_bound.longitude == -180 and not b.contains_coordinate(Coordinate(lon, lat)):
+                    ck.known(f)
+            except Exception:   # noqa
+                pass
 
     ck.finish(rule='every cell of every base down to depth 3 (base 16) / 2 (base 32) / 2 (base 64): decode, and for cells inside '
-                   'the coordinate range re-encode of the centre, sub-hashes, box and box membership; seeded random coordinates at '
-                   'lengths 1..12 (uniform / exactly on edges, corners and centres of random cells / at the range limits), each '
-                   'encoded through one of four routes (_coord_to_niemeyer, hash_coordinates, hash_shape(GeoPoint), hash_coordinates '
-                   'with agg_fn), decoded back, and re-encoded at a shorter length; fixed rejection corpus. non-trivial = distinct '
-                   'in-range cells + distinct (base, length, coordinate) triples',
+                   'the coordinate range re-encode of the centre, sub-hashes, box and box membership; every string of depth <= 2 is '
+                   'also decoded under the other two bases (accepted iff over that alphabet) and then again under its own; seeded '
+                   'random coordinates at lengths 1..12 (uniform / exactly on edges, corners and centres of random cells / at the '
+                   'range limits), each encoded under all three bases in shuffled order through one of four routes '
+                   '(_coord_to_niemeyer, hash_coordinates, hash_shape(GeoPoint), hash_coordinates with agg_fn), decoded back, '
+                   'cross-decoded under the other bases, and re-encoded at a shorter length; fixed rejection corpus decoded under all '
+                   'three bases in rotating order. non-trivial = distinct in-range cells + distinct (base, length, coordinate) triples',
               assumptions=['floats are read exactly (float.as_integer_ratio); the float code is exact on these inputs for lengths <= 12 (DESIGN section 3)',
                            'the four observation routes call the same module-level function (checked: all routes are compared with the same model function)'])
 
